@@ -4,6 +4,7 @@ import (
 	"context"
 	"encoding/base64"
 	"encoding/json"
+	"fmt"
 	"net/http"
 	"net/http/httptest"
 	"net/url"
@@ -147,6 +148,7 @@ type Auth struct {
 	ID     string
 	Secret string
 	Extra  url.Values // e.g. client_assertion
+	Query  url.Values // parameters put into the URL query string of the POST request (not the body)
 }
 
 func BasicAuth(id, secret string) Auth { return Auth{Mode: "basic", ID: id, Secret: secret} }
@@ -184,7 +186,11 @@ func postReq(path string, form url.Values, a Auth) *http.Request {
 	}
 	req := httptest.NewRequest("POST", "https://issuer.example"+path, nil)
 	a.apply(req, f)
-	req = httptest.NewRequest("POST", "https://issuer.example"+path, strings.NewReader(f.Encode()))
+	target := "https://issuer.example" + path
+	if len(a.Query) > 0 {
+		target += "?" + a.Query.Encode()
+	}
+	req = httptest.NewRequest("POST", target, strings.NewReader(f.Encode()))
 	req.Header.Set("Content-Type", "application/x-www-form-urlencoded")
 	a.apply(req, url.Values{})
 	return req
@@ -427,11 +433,20 @@ func (w *World) Revoke(token, hint string, caller Auth) *Obs {
 	w.Prov.WriteRevocationResponse(ctx, rec, err)
 	o := parseRecorder(rec)
 	o.GoErr = errString(err)
-	if err != nil && o.Err == "" {
-		// WriteRevocationResponse maps some errors to 200; keep the library's verdict visible
-		o.Desc = "go:" + fosite.ErrorToRFC6749Error(err).ErrorField
-	}
 	return o
+}
+
+// RevokeClass is what the revocation endpoint told its caller: "" for 200 OK (accepted), else the error code of
+// the body (or the bare status). The library-level error (GoErr) is deliberately not consulted: C08 is stated for
+// the endpoint's answer.
+func (o *Obs) RevokeClass() string {
+	if o.Status == 200 {
+		return ""
+	}
+	if o.Err != "" {
+		return o.Err
+	}
+	return fmt.Sprintf("http-%d", o.Status)
 }
 
 // ---- PAR
